@@ -30,7 +30,11 @@ UNORD = ("fold", "reshuffle", "repartition", "reshard")
 REORD = ("reduce", "cogroup")
 
 
-def exhaustive(depth):
+BIGROWS = " ".join("%d:%d" % ((i * 37) % 301, i) for i in range(300))
+SRC_BIG = ["const 1 " + BIGROWS, "const 2 " + BIGROWS, "reader 1 128 " + " ".join("%d:%d" % (i % 150, i) for i in range(260))]
+
+
+def exhaustive(depth, sources=None):
     """every chain source -> op1 -> ... -> op_depth (Head only where the order is fixed)"""
     def rec(stmts, ordered, d):
         if d == 0:
@@ -44,7 +48,7 @@ def exhaustive(depth):
             o = False if kind in UNORD else True if kind in REORD else ordered
             text = u % ((prev,) * u.count("%s"))
             yield from rec(stmts + ["N%d=%s" % (len(stmts), text)], o, d - 1)
-    for s in SRC:
+    for s in (sources or SRC):
         yield from rec(["N0=" + s], True, depth)
 
 
@@ -52,6 +56,9 @@ def gen(r, tier):
     # bounded-exhaustive part: all chains of depth 1 (and 2 in the thorough tier; a sample of them in the quick tier)
     for p in exhaustive(1):
         yield "local CH%d ;; %s" % (r.choice([1, 2, 128]), p)
+    # inputs larger than the internal vector size (128 rows), so that every merging reader refills its buffers
+    for p in exhaustive(1, SRC_BIG):
+        yield "local CH%d ;; %s" % (r.choice([8, 128]), p)
     d2 = list(exhaustive(2))
     if tier == "quick":
         d2 = [d2[r.below(len(d2))] for _ in range(300)]
